@@ -766,7 +766,9 @@ for _r in ('R1-1', 'R1-2', 'R1-3', 'R1-4', 'R2-1', 'R2-2', 'R2-3', 'R2-4', 'R3-1
            'R22-1', 'R22-2', 'R22-3', 'R22-4', 'R23-1', 'R23-2', 'R23-3', 'R23-4', 'R24-1', 'R24-2', 'R24-3', 'R24-4',
            'R25-1', 'R25-2', 'R25-3', 'R25-4',
            'R26-1', 'R26-2', 'R26-3', 'R26-4', 'R27-1', 'R27-2', 'R27-3', 'R27-4', 'R28-1', 'R28-2', 'R28-3', 'R28-4',
-           'R29-1', 'R29-2', 'R29-3', 'R29-4'):
+           'R29-1', 'R29-2', 'R29-3', 'R29-4',
+           'R30-1', 'R30-2', 'R30-3', 'R30-4', 'R31-1', 'R31-2', 'R31-3', 'R31-4', 'R32-1', 'R32-2', 'R32-3', 'R32-4',
+           'R33-1', 'R33-2', 'R33-3', 'R33-4'):
     CORPUS.append({'id': 'S/' + _r + '-silent', 'props': ALL_PROPS, 'rule': None, 'expect': 'silent', 'edits': [],
                    'patch': 'seeded_benign/%s/patch.diff' % _r, 'tolerate_rekeyed': True})
 
@@ -971,3 +973,4 @@ P('C16-Q', 'C16', 'C16.R7'); P('C16-R', 'C16', 'C16.R9')
 P('C17-Q', 'C17', 'C17.R3'); P('C17-R', 'C09', 'C09.R1')
 P('C18-Q', 'C18', 'C18.R1'); P('C18-R', 'C18', 'C18.R5')
 P('C20-Q', 'C20', 'C20.R1'); P('C20-R', 'C20', 'C20.R2')
+P('C19-Q', 'C19', 'C19.R1'); P('C19-R', 'C08', 'C08.R1')
